@@ -35,7 +35,8 @@ Record tobs := mkT
     o_nest : Z;                  (* invocations of bodies handed to a Transact on the transaction's session *)
     o_self : bool;               (* the body itself called Commit / Rollback on the transaction *)
     o_acc : Z;                   (* calls of the user's WithAcceptable functions *)
-    o_accsame : bool }.          (* ... each with the very error that was returned *)
+    o_accsame : bool }.          (* ... each with the very error that was returned, and only once the
+                                    transaction was over (after its last driver call) *)
 
 Record case := mkCase
   { cguard : bool;               (* the tree guards the commit against a body that never returned (GZgen) *)
